@@ -55,3 +55,64 @@ package rr
 //@   loop 0 step [C10.surm-sum] runoffTS.at(i) == quickflowTS.at(i) + baseflowTS.at(i)
 //@   loop 0 step [C10.surm-balance] rainfall.at(i) - runoffTS.at(i) - (1 - fimp)*((post(soilMoistureStore) - pre(soilMoistureStore)) + (post(gw) - pre(gw))) >= 0
 //@   ensures [C10.surm-final-stores] 0 <= rS && rS <= smax && rGW >= 0
+
+// ---- GR4J (C15: the published equations, Perrin et al. 2003; C10: bounds and balance) ----
+// S-curves with exponent 5/2 and time bases x4 and 2*x4; ordinates are their differences.
+
+//@ spec gr4jSS1(t real, x4 real) real = ite(t <= 0, 0.0, ite(t < x4, pow(t/x4, 2.5), 1.0))
+//@ spec gr4jSS2(t real, x4 real) real = ite(t <= 0, 0.0, ite(t <= x4, 0.5*pow(t/x4, 2.5), ite(t < 2*x4, 1 - 0.5*pow(2 - t/x4, 2.5), 1.0)))
+//@ spec gr4jPn(P real, E real) real = ite(P > E, P - E, 0.0)
+//@ spec gr4jEn(P real, E real) real = ite(P > E, 0.0, E - P)
+//@ spec gr4jPs(S real, x1 real, P real, E real) real = ite(P > E, x1*(1 - pow(S/x1, 2.0))*tanh(min(gr4jPn(P,E)/x1, 13.0)) / (1 + (S/x1)*tanh(min(gr4jPn(P,E)/x1, 13.0))), 0.0)
+//@ spec gr4jEs(S real, x1 real, P real, E real) real = ite(P > E, 0.0, S*(2 - S/x1)*tanh(min(gr4jEn(P,E)/x1, 13.0)) / (1 + (1 - S/x1)*tanh(min(gr4jEn(P,E)/x1, 13.0))))
+//@ spec gr4jS1(S real, x1 real, P real, E real) real = S - gr4jEs(S,x1,P,E) + gr4jPs(S,x1,P,E)
+//@ spec gr4jPerc(S1 real, x1 real) real = S1*(1 - pow(1 + pow((4.0/9.0)*(S1/x1), 4.0), -0.25))
+//@ spec gr4jPr(S real, x1 real, P real, E real) real = gr4jPerc(gr4jS1(S,x1,P,E), x1) + ite(P > E, gr4jPn(P,E) - gr4jPs(S,x1,P,E), 0.0)
+//@ spec gr4jF(R real, x2 real, x3 real) real = x2*pow(R/x3, 3.5)
+//@ spec gr4jR1(R real, Q9 real, x2 real, x3 real) real = max(0.0, R + Q9 + gr4jF(R,x2,x3))
+//@ spec gr4jQr(R1 real, x3 real) real = R1 - R1/pow(1 + pow(R1/x3, 4.0), 0.25)
+
+//@ # axiom [A-MATH.pow-monotone] forallr(a, forallr(b, forallr(p, implies(0 <= a && a <= b && p > 0, pow(a,p) <= pow(b,p)))))
+
+//@ func gr4j(rainfall, pet, s0, r0, n1, n2, q1State, q9State, x1, x2, x3, x4, runoff) returns (rS, rR, rN1, rN2, rQ1, rQ9)
+//@   noalias
+//@   safety C15
+//@   requires rainfall.len == pet.len && rainfall.len == runoff.len
+//@   requires forall(t, 0, rainfall.len, rainfall.at(t) >= 0 && pet.at(t) >= 0)
+//@   requires x1 >= 1 && x3 >= 1 && 0.5 <= x4 && x4 <= 4
+//@   requires real(n1) == ceil(x4) && real(n2) == ceil(2*x4) && len(q9State) == n1 && len(q1State) == n2
+//@   requires 0 <= s0 && s0 <= x1 && r0 >= 0
+//@   assigns runoff.cells, q1State[*], q9State[*]
+//@   loop 0 invariant 0 <= i && i <= n1 && len(SH1) == n1
+//@   loop 0 invariant forall(k, 0, i, SH1[k] == pow(real(k+1)/x4, 2.5))
+//@   loop 1 invariant 1 <= i && i <= n1 && len(UH1) == n1 && len(SH1) == n1
+//@   loop 1 invariant [C15.uh1] forall(k, 0, i, UH1[k] == gr4jSS1(real(k+1), x4) - gr4jSS1(real(k), x4))
+//@   loop 1 invariant forall(k, 0, n1, SH1[k] == gr4jSS1(real(k+1), x4))
+//@   loop 2 invariant 0 <= i && len(SH2) == n2 && real(i) <= x4 && i <= n2
+//@   loop 2 invariant forall(k, 0, i, SH2[k] == gr4jSS2(real(k+1), x4))
+//@   loop 3 invariant 0 <= i && i <= n2 && len(SH2) == n2
+//@   loop 3 invariant [C15.sh2] forall(k, 0, i, SH2[k] == gr4jSS2(real(k+1), x4))
+//@   loop 4 invariant 1 <= i && i <= n2 && len(UH2) == n2 && len(SH2) == n2
+//@   loop 4 invariant [C15.uh2] forall(k, 0, i, UH2[k] == gr4jSS2(real(k+1), x4) - gr4jSS2(real(k), x4))
+//@   loop 4 invariant forall(k, 0, n2, SH2[k] == gr4jSS2(real(k+1), x4))
+//@   loop 5 invariant 0 <= day && day <= nDays && len(UH1) == n1 && len(UH2) == n2
+//@   loop 5 invariant implies(day < nDays, rainfall.at(day) >= 0 && pet.at(day) >= 0)
+//@   loop 5 invariant [C10.gr4j-stores] 0 <= S && S <= x1 && R >= 0
+//@   loop 5 step [C15.production] post(S) == gr4jS1(pre(S), x1, rainfall.at(day), pet.at(day)) - gr4jPerc(gr4jS1(pre(S), x1, rainfall.at(day), pet.at(day)), x1)
+//@   loop 5 step [C15.uh1-convolution] forall(k, 0, n1-1, q9State[k] == pre(q9State[k+1]) + gr4jPr(pre(S), x1, rainfall.at(day), pet.at(day))*0.9*UH1[k+1]) && q9State[n1-1] == 0
+//@   loop 5 step [C15.uh2-convolution] forall(k, 0, n2-1, q1State[k] == pre(q1State[k+1]) + gr4jPr(pre(S), x1, rainfall.at(day), pet.at(day))*0.1*UH2[k+1]) && q1State[n2-1] == 0
+//@   loop 5 step [C15.routing-store] post(R) == gr4jR1(pre(R), pre(q9State[0]) + gr4jPr(pre(S), x1, rainfall.at(day), pet.at(day))*0.9*UH1[0], x2, x3) - gr4jQr(gr4jR1(pre(R), pre(q9State[0]) + gr4jPr(pre(S), x1, rainfall.at(day), pet.at(day))*0.9*UH1[0], x2, x3), x3)
+//@   loop 5 step [C15.runoff] runoff.at(day) == gr4jQr(gr4jR1(pre(R), pre(q9State[0]) + gr4jPr(pre(S), x1, rainfall.at(day), pet.at(day))*0.9*UH1[0], x2, x3), x3) + max(0.0, pre(q1State[0]) + gr4jPr(pre(S), x1, rainfall.at(day), pet.at(day))*0.1*UH2[0] + gr4jF(pre(R), x2, x3))
+//@   loop 5 step [C10.gr4j-runoff-nonneg] runoff.at(day) >= 0
+//@   loop 6 invariant 0 <= i && i <= n1
+//@   loop 6 invariant forall(k, 0, i, q9State[k] == pre(q9State[k]) + (Pr*0.9*UH1[k])) && forall(k, i, n1, q9State[k] == pre(q9State[k]))
+//@   loop 6 invariant forall(k, 0, n2, q1State[k] == pre(q1State[k]))
+//@   loop 7 invariant 0 <= i && i <= n2
+//@   loop 7 invariant forall(k, 0, i, q1State[k] == pre(q1State[k]) + (Pr*0.1*UH2[k])) && forall(k, i, n2, q1State[k] == pre(q1State[k]))
+//@   loop 7 invariant forall(k, 0, n1, q9State[k] == pre(q9State[k]) + (Pr*0.9*UH1[k]))
+//@   loop 8 invariant 1 <= i && i <= n1
+//@   loop 8 invariant forall(k, 0, i-1, q9State[k] == pre(q9State[k+1]) + (Pr*0.9*UH1[k+1])) && forall(k, i-1, n1, q9State[k] == pre(q9State[k]) + (Pr*0.9*UH1[k]))
+//@   loop 8 invariant forall(k, 0, n2, q1State[k] == pre(q1State[k]) + (Pr*0.1*UH2[k]))
+//@   loop 9 invariant 1 <= i && i <= n2
+//@   loop 9 invariant forall(k, 0, i-1, q1State[k] == pre(q1State[k+1]) + (Pr*0.1*UH2[k+1])) && forall(k, i-1, n2, q1State[k] == pre(q1State[k]) + (Pr*0.1*UH2[k]))
+//@   loop 9 invariant forall(k, 0, n1-1, q9State[k] == pre(q9State[k+1]) + (Pr*0.9*UH1[k+1])) && q9State[n1-1] == 0
